@@ -11,7 +11,7 @@ inductive RecKind where
   | entity | activity | generation | usage | communication | start | «end» | invalidation
   | derivation | agent | attribution | association | delegation | influence
   | specialization | alternate | mention | membership
-  deriving DecidableEq, Repr, Inhabited, BEq
+  deriving DecidableEq, Repr, Inhabited
 
 namespace RecKind
 
@@ -92,7 +92,7 @@ def isProvAttr (q : QName) : Bool := isRefAttr q || isTimeAttr q
 /-- `XSD_DATATYPE_PARSERS` keys (local parts in the XSD namespace) with the parser kind. -/
 inductive XsdParser where
   | str | double | int | boolean | dateTime | anyURI
-  deriving DecidableEq, Repr, BEq
+  deriving DecidableEq, Repr
 
 def xsdParsers : List (String × XsdParser) :=
   [("string", .str), ("double", .double), ("long", .int), ("int", .int),
